@@ -115,7 +115,7 @@ class C07:
             "native path on one side and the portable path on the other; distinct = (file, pair)")
     assumptions = ["normalised away: object addresses, the host banner, code-object repr spelling (native vs portable, "
                    "which the repo's own tests equate), element order inside set reprs (host hash function)"]
-    budgets = {"quick": {"shards": 14, "examples": 12, "seconds": 85},
+    budgets = {"quick": {"shards": 14, "examples": 22, "seconds": 85},
                "thorough": {"shards": 16, "examples": 500, "seconds": 1500}}
 
     def strata(self, ctx):
